@@ -76,6 +76,12 @@ CLAIMED = {
   "note": "PARTIAL: IndexComplete under the guard noBlankInLeadingLiteral, and the harmlessness of the static-value short-cut (staticallyKnown_sound), are not theorems yet - they rest on the four-way differential runs of implementation and model. Trusted: Lean kernel + three standard axioms; whole-assembler model tied by differential execution under all four settings.",
   "technique": "Lean 4 proof (list membership, kernel-evaluated counterexample) + four-way differential execution of implementation and model",
  },
+ "C07": {
+  "text": "Lean 4 theorems about the model of the matcher and the walker (Casm/Props/C07.lean): exact_part_ignores_case / maybeExpectChar_pattern_case (an exact pattern part accepts a character iff the ASCII lower-casings agree, on either side); blank_run_skipped / blank_runs_interchangeable / exact_part_after_blank_run (for every text, any run of blanks and tabs in front of a token is one Whitespace token and is skipped by exact parts and parameters exactly like no run, so widening, tab/blank swaps and inserted runs change nothing there); comment_is_ignorable (a `;` comment is one ignorable token whatever it contains); rule_order_irrelevant (trying the candidate rules in another order gives a permutation of the same matches); selected_have_max_literals / literal_beats_expression (only matches with the largest count of literal pattern parts survive, so a rule spelling an operand literally beats one reading it as an expression). Search and tie: generated instruction sets (prefix-sharing, dotted, digit-leading mnemonics; wrappers; operator-like separators; same-shape families; literal-versus-expression overlaps with symbols named like the literals) and programs, each re-spelled three times (recasing, blank/tab widening and insertion, trailing and nested block comments, rule permutation and re-partition into 1-3 blocks, label renaming): the implementation must give identical success/bits (symbols up to renaming), equal to the generator's language-definition result, and the model is run on every spelling; blanks inside a mnemonic are a separate stream attributed to finding F10 by the model.",
+  "design_ref": "DESIGN.md section 6, C07",
+  "note": "PARTIAL: invariance of whole-program results under re-partition into blocks, label renaming and block comments, and the interaction of the look-ahead cut with blanks, are established by the metamorphic search and the model correspondence, not by theorems. Known findings: F10 (blank inside the leading literal), F22 (an added blank enables a rule whose pattern spells one). Trusted: Lean kernel + three standard axioms; token tables re-extracted on every run; whole-assembler model tied by differential execution on every spelling.",
+  "technique": "Lean 4 proof (tokenizer/walker lemmas, permutation, max-filter) + metamorphic search on the implementation + model correspondence",
+ },
 }
 
 NOT_YET = {}
